@@ -43,6 +43,10 @@ BOUNDS_RE = r'^\{"op": "Derived", "c": "a", "q": \[\["where", (\["not", )?\["(an
 IN_RE = r'^\{"op": "Derived", "c": "a", "q": \[\["where", \["un", "in", \[120\]'
 
 
+# a query whose whole criteria is one comparison / test on x, with a skip (any sort, any limit)
+SINGLE_SKIP_RE = r'^\{"op": "Derived", "c": "a", "q": \[\["where", \[("un"|"sugar"), "[a-z]+", \[120\], .*\["skip", 1\]'
+
+
 def AUX(name, aux, n, **kw):
     d = {"kind": "aux", "name": name, "aux": aux, "n": n}
     d.update(kw)
@@ -169,6 +173,8 @@ PLANS["C08"] = {
         T("extremes", "extremes", (15, 300), ["InvC08"]),
         T("floats", "floats", (15, 300), ["InvC08"]),
         EDG("edges", ["InvC08"], ops=["Derived"]),
+        # every single-leaf criterion on the indexed field x every sort x windows with a skip, on content-rich states
+        EDG("edges-single", ["InvC08"], ops=["Derived"], rich_states=150, states=(12, 100), reads=(0, 0), seed_off=13, event_re=SINGLE_SKIP_RE),
     ],
 }
 
@@ -189,6 +195,8 @@ PLANS["C12"] = {
     "assumptions": L1_ASSUME,
     "stages": [
         T("ids", "ids", (60, 1500), ["InvC12"]),
+        # a batch beyond the store's transaction limit that fails late on a duplicate / malformed _id: nothing of it may stay
+        T("huge", "huge", (2, 8), ["InvErrNoTrace", "InvNoPanic"], backends="rotate", chunk=1, heap="8g"),
     ],
 }
 
@@ -197,6 +205,8 @@ PLANS["C13"] = {
     "assumptions": L1_ASSUME,
     "stages": [
         T("catalog", "catalog", (60, 1500), ["InvC13"]),
+        # compound creations (import, create-by-query) that fail half-way, then the catalog questions
+        T("io", "io", (20, 400), ["InvC13"]),
         MC_PROPS,
         KV_LAWS, KV_RESERVED, KV_APA, KV_APA_SEMI, KV_KEYS,
     ],
@@ -312,6 +322,7 @@ PLANS["C10"] = {
         AUX("values", "values", (64, 130), reps=(4, 12), chunk=1, heap="8g"),
         # times up to year 9999 (beyond what 64 bits of nanoseconds hold) in indexed, filtered and sorted fields
         T("fartimes", "fartimes", (12, 200), ["InvC01", "InvC08"]),
+        T("strkeys", "strkeys", (12, 200), ["InvC01", "InvC08"]),
         T("extremes", "extremes", (12, 200), ["InvC01", "InvC08"]),
         T("floats", "floats", (12, 200), ["InvC01", "InvC08"]),
     ],
@@ -383,6 +394,8 @@ PLANS["C05"] = {
           args=["-mode", "abandon", "-huge", "-backends", "badger,bolt"], chunk=1, heap="8g", seed_off=41),
         T("onetx", "general", (20, 400), ["InvOneTx"], args=["-txlog"]),
         T("kill", "-", (30, 600), ["InvCrash", "InvCrashAcks"], cmd="crash", args=["-workdir", "{work}"], chunk=10),
+        # kills deep inside operations that rewrite thousands of keys (index build / drop, bulk update, collection drop)
+        T("kill-big", "-", (8, 80), ["InvCrash", "InvCrashAcks"], cmd="crash", args=["-workdir", "{work}", "-big"], chunk=2, heap="8g", seed_off=17),
         {"kind": "custom", "name": "durability", "fn": durability, "n": (2, 12)},
     ],
 }
@@ -406,6 +419,9 @@ PLANS["C07"] = {
         AUX("rwset", "rwset", (1, 1), module="TraceRW", invariants=["InvRW"], advisory=True, chunk=200),
         {"kind": "lin", "name": "lin", "n": (90, 3000), "maxg": 4, "ops": 3, "chunk": 10},
         {"kind": "lin", "name": "lin-wide", "n": (30, 1000), "maxg": 8, "ops": 3, "chunk": 5, "seed_off": 31},
+        # the same programs on the bare adapters (no decorator between clover and the store, so code that asks a
+        # transaction for optional interfaces behaves as in production); conflicts arise on their own
+        {"kind": "lin", "name": "lin-raw", "n": (45, 1500), "maxg": 5, "ops": 3, "raw": True, "chunk": 9, "seed_off": 53},
         # deterministic schedules on the optimistic store: a bulk update held open (gate in its first callback)
         # while a point update and then a reader run to completion
         {"kind": "lin", "name": "lin-gated", "n": (12, 60), "gated": True, "backends": "badger,badgermem", "chunk": 12, "seed_off": 63},
